@@ -14,7 +14,14 @@ def main():
         from . import boot
         boot.boot()
         mod = load_prop(job["prop"])
-        mod.run_shard(job["shard"], ctx)
+        if job["shard"].get("kind") == "pinned":
+            import os
+            from . import ROOT
+            with open(os.path.join(ROOT, job["shard"]["file"])) as f:
+                mod.replay(json.load(f)["case"], ctx)
+            ctx.count("pinned_known_finding_cases")
+        else:
+            mod.run_shard(job["shard"], ctx)
     except Exception:
         ctx.inconclusive(f"shard {job['index']} ({job['shard'].get('kind')}) harness error: " + traceback.format_exc()[-1500:])
     with open(out, "w") as f:
